@@ -226,6 +226,10 @@ def rw_module(rng, prog):
 _FCACHE = {}
 
 
+def reject_class(o2):
+    return "reason:" + re.sub(r"`[^`]*`", "`_`", o2.obs.get("reject_reason", "?"))[:60].replace(" ", "_")
+
+
 def inherited(w, p2, db, dialect, o2, under):
     """Which listed defect of another property (if any) the rewritten program ran into: the
     rewritten program is reduced with respect to its own symptom and matched against that
@@ -361,7 +365,7 @@ def _shard(seed, shard, n_bases):
                         sym, det = "rewritten_" + bad[0][1], bad[0][2]
                         under = (bad[0][0], bad[0][1]) if bad[0][0] != "C06" else None
                 if sym:
-                    inh = inherited(w, p2, db, dialect, o2, under)
+                    inh = reject_class(o2) if sym == "rewritten_rejected" else inherited(w, p2, db, dialect, o2, under)
                     key = (sym, kind, inh)
                     wit = None
                     if key not in seen:
@@ -444,7 +448,7 @@ def replay(case):
                 under = (bad2[0][0], bad2[0][1]) if bad2 else None
             w2 = core.Worker()
             w2.db_open("d", grel.db_stmts(case["db"]))
-            inh = inherited(w2, case["rewritten"], case["db"], case["dialect"], o2, under)
+            inh = reject_class(o2) if sym == "rewritten_rejected" else inherited(w2, case["rewritten"], case["db"], case["dialect"], o2, under)
             w2.close()
             out.append({"property": "C06", "symptom": sym, "shape": "%s :: %s :: %s" % (case["dialect"], kind, inh), "witness": case, "detail": det})
     elif o.status == "judged" and o.model is not None and o2.status == "judged" and o2.model is not None:
